@@ -157,7 +157,10 @@ def discharge(ob, ctx):
         if not ok:
             out["verdict"] = "INCONCLUSIVE"
             out["why"] = "counterexample did not reproduce under plain Python (engine model wrong here): " + outcome[:200]
-            os.remove(path)
+            try:
+                os.remove(path)
+            except OSError:
+                pass
             break
         sig = f"{ob.id}|{outcome}"
         hit = None
@@ -220,6 +223,13 @@ def main(argv=None):
         ctx = {"snap": snap, "tmp": tmp, "prop": prop, "tier": tier, "seed": seed, "known": load_known()}
         plan = mod.plan(ctx)
         obligations = plan["obligations"]
+        seen_ids = set()
+        uniq = []
+        for o in obligations:          # obligation ids are file names and known-finding keys: keep the first of any duplicates
+            if o.id not in seen_ids:
+                seen_ids.add(o.id)
+                uniq.append(o)
+        obligations = uniq
         if a.only:
             obligations = [o for o in obligations if re.search(a.only, o.id)]
         # stale replays of this property are removed: replays/ only holds what this run produced
